@@ -286,8 +286,14 @@ class _Dist:
         self.W, self.name, self.params, self.positional = W, name, params, list(positional)
 
     def sf(self, x, *args, **kw):
-        vals = dict(zip(self.positional, args))
-        vals.update(kw)
+        # scipy: sf(x, <shape parameters>, loc=0, scale=1) -- positional arguments fill the parameters in that order
+        if len(args) > len(self.params):
+            raise TypeError(f"{self.name}: too many positional arguments")
+        vals = dict(zip(self.params, args))
+        for k_, v_ in kw.items():
+            if k_ in vals:
+                raise TypeError(f"{self.name}: got multiple values for argument '{k_}'")
+            vals[k_] = v_
         if set(vals) - set(self.params):
             raise core.Unsupported(f"{self.name}: unexpected parameters {sorted(vals)}")
         ps = [vals.get(p, 0 if p == "loc" else 1) for p in self.params]
@@ -698,7 +704,8 @@ def sk_cast_prms(tier):
 
 @unit(
     "lifetime.parameter_casting",
-    props=["C08", "C04", "C15"],
+    props=["C08", "C04", "C15", "C16"],
+    only_clauses={"C16": ["*entries*"]},
     targets=["flodym.lifetime_models.LifetimeModel.cast_any_to_np_array", "flodym.lifetime_models.StandardDeviationLifetimeModel.set_prms", "flodym.lifetime_models.FixedLifetime.set_prms", "flodym.lifetime_models.WeibullLifetime.set_prms", "flodym.lifetime_models.LifetimeModel.cast_prms"],
     skeletons=sk_cast_prms,
     note="model dimensions a,b,c,.. (first one is time); the parameter is a FlodymArray over any subset in any storage order, a number, or an ndarray",
